@@ -7,6 +7,7 @@ import (
 	"fmt"
 	"math"
 	"math/rand/v2"
+	"os"
 	"sort"
 	"strings"
 	"sync"
@@ -133,6 +134,8 @@ type scenario struct {
 	// RestartWhen makes the first interruption state-triggered: the run is cancelled as soon as the
 	// chain shows the named stage boundary (see stageReached)
 	RestartWhen string
+	// RestartDelay: blocks between an interruption and the new start of that member
+	RestartDelay int
 	// second interruption: another member, or the same one again after its restart (-1: none)
 	Restart2Of int
 	Restart2At int
@@ -143,9 +146,8 @@ type scenario struct {
 	Label  string
 }
 
-func scenarios(tier string, seed uint64) []scenario {
+func scenarios(tier string, seed uint64) (res []scenario) {
 	r := rand.New(rand.NewPCG(seed, 0xC13))
-	var res []scenario
 	mk := func(n int, label string) scenario {
 		s := scenario{N: n, BlockMS: 70, RestartOf: -1, Restart2Of: -1, LateOf: -1, Label: label}
 		s.Offsets = make([]int, n)
@@ -173,14 +175,26 @@ func scenarios(tier string, seed uint64) []scenario {
 		res = append(res, s)
 		res = append(res, lateMajority(jit(mk(4, "late-majority")), r))
 		// the only member is interrupted right at a stage boundary (seeded change C13-3: a restart between the two role designations)
-		s = mk(1, "stage-restart")
-		s.RestartOf, s.RestartWhen, s.RestartAt = 0, "notary-designated", 0
-		res = append(res, s)
+		// (every offset of the few blocks between the designation and the first transaction that needs it:
+		// seeded change C13-5 needs the leader to come back exactly there)
+		for _, ad := range [][2]int{{0, 0}, {0, 1}, {1, 0}} {
+			s = mk(1, "stage-restart")
+			s.RestartOf, s.RestartWhen, s.RestartAt, s.RestartDelay = 0, "notary-designated", ad[0], ad[1]
+			res = append(res, s)
+		}
 		s = jit(mk(2, "stage-restart"))
 		s.RestartOf, s.RestartWhen, s.RestartAt = r.IntN(2), runner.Pick(r, stages), r.IntN(3)
 		res = append(res, s)
 		return res
 	}
+	defer func() {
+		// thorough: every interrupted member comes back after a PRNG-chosen number of blocks
+		for i := range res {
+			if res[i].RestartOf >= 0 && res[i].RestartDelay == 0 {
+				res[i].RestartDelay = r.IntN(6)
+			}
+		}
+	}()
 	for n := 1; n <= 7; n++ {
 		res = append(res, mk(n, "plain"))
 		res = append(res, jit(mk(n, "jitter")))
@@ -477,6 +491,7 @@ func runScenario(b *runner.Batch, sc scenario) {
 			wg.Add(1)
 			go func() {
 				defer cancel()
+				waitBlocks(sc.RestartDelay)
 				runMember(i, false)
 			}()
 			return
@@ -578,6 +593,34 @@ wait:
 		b.Violation(fmt.Sprintf("the procedure submitted %d transactions the node refused as invalid, first: member %d at height %d: %s (%s)", bad, firstBad.Member, firstBad.Height, firstBad.Err, firstBad.Info), det())
 	}
 	b.Extra("submissions_recorded", nEvents)
+	// bounded progress, second form: global silence. While the deployment is unfinished somebody always has
+	// something to try (unchanged tree: at most 6 blocks without any attempt; 120 when a shared transaction
+	// has to expire first). Nobody attempting anything for more than 150 blocks is a stall, even if block
+	// rewards or a later restart happen to end it (seeded change C13-5).
+	{
+		rec.mu.Lock()
+		var prev, worst, at uint32
+		for i, e := range rec.events {
+			if i > 0 && e.Height > prev && e.Height-prev > worst {
+				worst, at = e.Height-prev, prev
+			}
+			prev = e.Height
+		}
+		rec.mu.Unlock()
+		b.Extra(fmt.Sprintf("longest_silence_blocks:n%d:%s", sc.N, sc.Label), int(worst))
+		if worst > 150 {
+			b.Violation(fmt.Sprintf("deployment (n=%d, %s): no member attempted any submission for %d blocks (after height %d) although the deployment was unfinished", sc.N, sc.Label, worst, at), det())
+		}
+	}
+	if f := os.Getenv("VERIF_C13_DEBUG"); f != "" {
+		rec.mu.Lock()
+		var evs []string
+		for _, e := range rec.events {
+			evs = append(evs, fmt.Sprintf("h%d m%d %s %s %s", e.Height, e.Member, e.Call, e.Info, e.Err))
+		}
+		rec.mu.Unlock()
+		_ = os.WriteFile(fmt.Sprintf("%s-%d-n%d-%s-%d-%d", f, b.Index, sc.N, sc.Label, sc.RestartAt, sc.RestartDelay), []byte(fmt.Sprintf("%+v\n", sc)+strings.Join(evs, "\n")+"\n"), 0o644)
+	}
 	// interleaving signature: the order in which members got their submissions through, run-length encoded
 	rec.mu.Lock()
 	var sig []string
@@ -978,7 +1021,7 @@ func runC13(b *runner.Batch) {
 func init() {
 	runner.Register(&runner.Check{
 		ID: "C13", Level: "exploration",
-		Rule: "Scenarios on a real in-process neo-go node (blockchain, network server with mempool and notary request pool, Notary service, RPC server with in-process clients, harness block producer as logical clock): every committee member runs the public deploy.Deploy with the embedded contracts; a scenario fixes committee size (quick 1,2,3,4,4,3,4; thorough 1..7 x 8-9), per-member start offsets, per-call delays injected at the RPC boundary, optionally an interruption of one member at a PRNG-chosen block followed by a restart, optionally a state-triggered interruption (the run is cancelled when the chain shows a stage boundary: NNS deployed, Notary role designated, NeoFSAlphabet role designated, proxy / netmap / container registered), optionally a second interruption (of the same or another member), optionally a minority of non-leading members absent until the Notary role appears, optionally a 'late majority' (one member short of a majority publishes signatures, the completing member joins 135 blocks after the last early signature appeared in the NNS; the monitor confirms that the shared transaction data was generated again in between). Judged: return values, progress within 1500 blocks, roles, NNS id and records, executables by checksum, ContractManagement Deploy event counts, submissions the node refuses as invalid, a second run over the finished chain (no Deploy/Update/Designation event, NNS storage unchanged), and Go race detector reports with a frame in neofs-contract/deploy (the child binary is built with -race). Pure helpers through verif-tagged exports: fund division exhaustive for 0..2000 x 1..41 plus uint64 boundaries, nonce/validity window for heights 0..10000 and the last 300 below 2^32, shared-transaction-data codec round trips. distinct = scenario (size, label, outcome) and helper class.",
+		Rule: "Scenarios on a real in-process neo-go node (blockchain, network server with mempool and notary request pool, Notary service, RPC server with in-process clients, harness block producer as logical clock): every committee member runs the public deploy.Deploy with the embedded contracts; a scenario fixes committee size (quick 1,2,3,4,4,3,4; thorough 1..7 x 8-9), per-member start offsets, per-call delays injected at the RPC boundary, optionally an interruption of one member at a PRNG-chosen block followed by a restart, optionally a state-triggered interruption (the run is cancelled when the chain shows a stage boundary: NNS deployed, Notary role designated, NeoFSAlphabet role designated, proxy / netmap / container registered), a restart delay of 0-5 blocks, optionally a second interruption (of the same or another member), optionally a minority of non-leading members absent until the Notary role appears, optionally a 'late majority' (one member short of a majority publishes signatures, the completing member joins 135 blocks after the last early signature appeared in the NNS; the monitor confirms that the shared transaction data was generated again in between). Judged: return values, progress within 1500 blocks and no global silence (no submission attempt by anybody) longer than 150 blocks while unfinished, roles, NNS id and records, executables by checksum, ContractManagement Deploy event counts, submissions the node refuses as invalid, a second run over the finished chain (no Deploy/Update/Designation event, NNS storage unchanged), and Go race detector reports with a frame in neofs-contract/deploy (the child binary is built with -race). Pure helpers through verif-tagged exports: fund division exhaustive for 0..2000 x 1..41 plus uint64 boundaries, nonce/validity window for heights 0..10000 and the last 300 below 2^32, shared-transaction-data codec round trips. distinct = scenario (size, label, outcome) and helper class.",
 		Assumptions: []string{"neo-go v0.107.0 node components are the trusted base", "goroutine interleavings are sampled, not enumerated; a replay re-runs the scenario parameters and carries the recorded RPC log of the failing run as witness",
 			"funding transfers (GAS top-ups, notary deposits) of a second run are logged, not judged"},
 		Batches: func(t string) int { return 1 + len(scenarios(t, 1)) },
